@@ -373,7 +373,21 @@ impl Property for C09 {
             q2.reverse();
         }
         let twin_base = c.twin_base.map(|p| nodes[pick(p, nodes.len())]);
-        match catch(|| build(&q2, twin_base)) {
+        // the twin is also spelled differently: every occurrence of a currency code gets its own mix
+        // of upper and lower case (codes are documented as case-insensitive: "converted to
+        // lowercase to promote performant equality between USD and usd")
+        let spell = |code: u8, bits: usize| -> String { CCYS[code as usize % 12].chars().enumerate().map(|(i, ch)| if (bits >> i) & 1 == 1 { ch.to_ascii_uppercase() } else { ch }).collect() };
+        let rot = c.twin_rot as usize;
+        let build_twin = || -> Result<FXRates, pyo3::PyErr> {
+            let rates = q2
+                .iter()
+                .enumerate()
+                .map(|(i, q)| FXRate::try_new(&spell(q.lhs, rot + 3 * i), &spell(q.rhs, rot / 8 + 5 * i + 1), Number::F64(q.rate.0), q.settle.map(day_to_ndt)).expect("fx rate"))
+                .collect();
+            FXRates::try_new(rates, twin_base.map(|b| Ccy::try_new(&spell(b, rot / 3 + 2)).expect("currency")))
+        };
+        v.label("twin:mixed-case-spelling");
+        match catch(build_twin) {
             Ok(Ok(twin)) => {
                 for (i, a) in nodes.iter().enumerate() {
                     for (j, b) in nodes.iter().enumerate() {
@@ -399,7 +413,7 @@ impl Property for C09 {
     }
 
     fn rule(&self) -> String {
-        "random labelled trees on 2-12 currencies (random recursive trees plus forced chains and stars, random relabelling over 12 codes), random orientation per quoted pair, log-uniform rates 1e-4..1e4, shuffled quote order, base in {none, any currency of the market}, optional common settlement date; about 40% of cases are then damaged on purpose (edge dropped / added, edge replaced so that a cycle plus a disconnected currency keeps the count right, pair duplicated or reverse-duplicated, settlement dates mixed, base outside the market). A union-find decides the expected verdict. Oracle for valid sets: every one of the n*n crosses is available, quoted pairs bit-exact, diagonal exactly 1, rate x inverse == 1 (1e-12), every cross == BFS path product with inversion on backward edges (1e-12), a reshuffled / re-based twin market agrees (1e-12), currencies outside the market are not answered; invalid sets must be rejected. Non-trivial: n >= 4 with a path of >= 3 quotes, or any invalid set.".into()
+        "random labelled trees on 2-12 currencies (random recursive trees plus forced chains and stars, random relabelling over 12 codes), random orientation per quoted pair, log-uniform rates 1e-4..1e4, shuffled quote order, base in {none, any currency of the market}, optional common settlement date; about 40% of cases are then damaged on purpose (edge dropped / added, edge replaced so that a cycle plus a disconnected currency keeps the count right, pair duplicated or reverse-duplicated, settlement dates mixed, base outside the market). A union-find decides the expected verdict. Oracle for valid sets: every one of the n*n crosses is available, quoted pairs bit-exact, diagonal exactly 1, rate x inverse == 1 (1e-12), every cross == BFS path product with inversion on backward edges (1e-12), a reshuffled / re-based twin market, whose currency codes are spelled with a different mix of upper and lower case at every occurrence, agrees (1e-12), currencies outside the market are not answered; invalid sets must be rejected. Non-trivial: n >= 4 with a path of >= 3 quotes, or any invalid set.".into()
     }
 
     fn floors(&self, tier: Tier) -> Vec<Floor> {
